@@ -27,6 +27,7 @@ EXPLANATION += ' R08.12: the comment test of the token source looks at the LAST 
 EXPLANATION += ' R08.2 is per branch for dispatching handlers: each method the node is handed to covers every field but those the dispatch test looks at.'
 EXPLANATION += ' R08.11: a `col_offset`/`end_col_offset` of an AST node (UTF-8 bytes) reaches a character offset only through codeanalyze.column_to_offset; it is otherwise only compared, or is the start column of a node tested to be a statement.'
 EXPLANATION += " R08.13: the backward token search returns a found index only under a positive comment test."
+EXPLANATION += " R08.14: no slice of the source between two named positions is empty by construction (its upper bound a copy, on every path, of the name its lower bound is computed from)."
 ASSUMPTIONS = [
     "language inclusion is decided over ASCII plus representatives of the non-ASCII \\w/\\d/\\s classes",
     "zero-width assertions in rope's patterns are erased on the right-hand side (can only enlarge rope's language)",
@@ -79,6 +80,7 @@ def check(ctx, res) -> None:
 
     column_to_offset_anchor(ctx, res, "R08.11")
     byte_column_rule(ctx, res, "R08.11", ("rope.refactor.patchedast",), rest=True)
+    _no_slice_empty_by_construction_rule(ctx, res)
     _comment_test_rule(ctx, res)
     _backward_search_passes_the_comment_test_rule(ctx, res)
 
@@ -473,3 +475,49 @@ def _backward_search_passes_the_comment_test_rule(ctx, res) -> None:
                 "`(` on the same comment line is returned as a real parenthesis -- `x = (  # f(x) (see note)` / `    a + b) * 2`: the operand's region starts inside the comment "
                 "or the annotation fails with MismatchedTokenError", function=m.qualname)
     res.floor("R08.13", "returns of a found index in the backward token search", n, 1)
+
+
+def _no_slice_empty_by_construction_rule(ctx, res) -> None:
+    """R08.14: `write_ast` gives the source back only if the pieces put into `sorted_children` tile the region without a gap.  The pieces are
+    slices `self.source[a : b]` between two cursor positions.  A slice whose upper bound is, on every path, a copy of the name its lower
+    bound is computed from (`start = index` ... `self.source[index + 1 : start]`) can never hold a character: a contradiction in the code
+    itself -- the text that should have been kept (what stands between an opening parenthesis and the first element: a blank, a line
+    break, a comment) is dropped from the children, and the written text no longer equals the source."""
+    from ..cfg import CFG
+    idx = ctx.idx
+    n = 0
+    for f in sorted(idx.functions.values(), key=lambda f: f.qualname):
+        if f.unit.modname != "rope.refactor.patchedast" or f.parent is not None:
+            continue
+        slices = [x for x in walk_local(f.node) if isinstance(x, ast.Subscript) and isinstance(x.slice, ast.Slice) and x.slice.lower is not None and x.slice.upper is not None
+                  and isinstance(x.slice.upper, ast.Name)]
+        if not slices:
+            continue
+        cfg = None
+        for sl in slices:
+            lo, up = sl.slice.lower, sl.slice.upper
+            base = lo.left if isinstance(lo, ast.BinOp) and isinstance(lo.op, ast.Add) and isinstance(lo.right, ast.Constant) else lo
+            if not isinstance(base, ast.Name) or base.id == up.id:
+                continue
+            n += 1
+            cfg = cfg or CFG(f.node)
+            here = cfg.node_containing(sl)
+            defs = [d for d in cfg.nodes if d.kind == "stmt" and isinstance(d.ast, ast.Assign) and any(isinstance(t, ast.Name) and t.id == up.id for t in d.ast.targets)]
+            params = {a.arg for a in f.node.args.args}
+            empty = False
+            if here and defs:
+                # the definitions of the upper bound that reach the slice
+                reaching = [d for d in defs if any(h.id in cfg.reachable(d.id, avoid_nodes=[x.id for x in defs if x is not d]) for h in here)]
+                from_entry = up.id in params and any(h.id in cfg.reachable(cfg.entry.id, avoid_nodes=[x.id for x in defs]) for h in here)
+                base_defs = [d for d in cfg.nodes if d.kind == "stmt" and isinstance(d.ast, ast.Assign) and any(isinstance(t, ast.Name) and t.id == base.id for t in d.ast.targets)]
+
+                def rebound_between(d) -> bool:  # the lower bound's name gets another value between the copy and the slice
+                    return any(b.id in cfg.reachable(d.id) and any(h.id in cfg.reachable(b.id) for h in here) for b in base_defs if b is not d)
+
+                empty = bool(reaching) and not from_entry and all(isinstance(d.ast.value, ast.Name) and d.ast.value.id == base.id and not rebound_between(d) for d in reaching)
+            res.add("R08.14", f"{f.qualname.split('.', 3)[-1]}|slice-can-hold-text|{ast.unparse(sl)[:50]}", not empty, f"{f.unit.rel}:{sl.lineno}",
+                    "the two bounds of the slice are different positions" if not empty else
+                    f"`{ast.unparse(sl)}` is empty by construction: on every path `{up.id}` was just bound to `{base.id}`.  The text it was meant to keep -- what stands between the "
+                    "opening parenthesis and the first element of a parenthesised tuple or generator expression (a blank, a line break, a comment) -- never reaches the node's "
+                    "children: write_ast of the node and of everything above it drops those characters", function=f.qualname)
+    res.floor("R08.14", "slices between two named positions in the walker", n, 3)
